@@ -225,3 +225,29 @@ func SortedKeys[V any](m map[string]V) []string {
 	sort.Strings(ks)
 	return ks
 }
+
+// LexStub is the import-free user file for lexer-only specifications.
+const LexStub = `package PKGNAME
+
+type Token struct{}
+
+type prs struct{ lox }
+`
+
+// GenerateOnly materialises the cases, runs the real generator on each
+// (layer B) and returns the packages; call Close on the batch when done.
+func GenerateOnly(cases []map[string]string, fast bool, report bool) (*Batch, error) {
+	b, err := NewBatch()
+	if err != nil {
+		return nil, err
+	}
+	FastLoader(fast)
+	for _, files := range cases {
+		if _, err := b.Add(files); err != nil {
+			b.Close()
+			return nil, err
+		}
+	}
+	b.Generate(8, report)
+	return b, nil
+}
